@@ -278,3 +278,28 @@ void h_probe(void) {
   ASSERT(d < in_n && (in_h - 1 + d) % in_n == in_i, "[C17] the probe distance is (i - home) mod nslots, for every capacity");
   COVER(in_i < in_h - 1, "probe distance across the wrap-around");
 }
+/* the same ownership question over *concrete* registry layouts (capacity 3, owner and owned the only registrations, cells,
+ * insertion order and the owned object's mark enumerated by the driver): cbmc then acts as a checking interpreter of the
+ * real GC_Sweep / GC_Rem text, which is what makes the re-entrant case tractable */
+#ifndef KO
+#define KO 0
+#define KQ 1
+#define ORDER 0
+#define MQ 0
+#endif
+void h_sweep_owner_concrete(void) {
+  gc = (struct GC*)header_init(&GO.h, GC, AllocHeap); cv_gc = gc;
+  gc->entries = ENT_A; gc->nslots = 3; gc->running = true; gc->freelist = NULL; gc->freenum = 0; gc->nitems = 0;
+  gc->minptr = (uintptr_t)CELL(0); gc->maxptr = (uintptr_t)CELL(63); gc->mitems = 100;
+  for (int i = 0; i < 3; i++) ENT_A[i] = (struct GCEntry){0};
+  in_p = CELL(KO); gh_q = CELL(KQ);
+  if (ORDER == 0) { gc->nitems++; GC_Set_Ptr(gc, in_p, false); gc->nitems++; GC_Set_Ptr(gc, gh_q, false); }
+  else { gc->nitems++; GC_Set_Ptr(gc, gh_q, false); gc->nitems++; GC_Set_Ptr(gc, in_p, false); }
+  for (int i = 0; i < 3; i++) if (ENT_A[i].hash != 0 && ENT_A[i].ptr == gh_q) ENT_A[i].marked = MQ;
+  __CPROVER_assert(wf_gc(gc, 3, 0), "pre-state built by the real GC_Set_Ptr is well formed");
+  cv_reenter = 1; cv_reenter_target = in_p;
+  GC_Sweep(gc);
+  ASSERT(cv_destructs_q == 1 && cv_deallocs_q == 1, "[C06] an object owned by a swept owner is finalised exactly once and released exactly once, whichever of the two the sweep reaches first");
+  ASSERT(!view(gc, 3, gh_q, NULL, NULL) && !view(gc, 3, in_p, NULL, NULL), "[C17] owner and owned are both gone from the registry");
+  COVER(1, "re-entrant sweep done");
+}
